@@ -44,8 +44,22 @@ def C8 : Sq := sq 58
 def G8 : Sq := sq 62
 def H8 : Sq := sq 63
 
-/-- `PolyglotBook::getMove`: decode the 16-bit move; castling arrives as king-takes-own-rook and is converted
-    only when a king of the right colour stands on e1 / e8 -/
+/-- the `switch (prom)` of `getMove` -/
+def decodeProm (wtm : Bool) (prom : Nat) : Pc :=
+  match prom with
+  | 1 => if wtm then WKNIGHT else BKNIGHT
+  | 2 => if wtm then WBISHOP else BBISHOP
+  | 3 => if wtm then WROOK else BROOK
+  | 4 => if wtm then WQUEEN else BQUEEN
+  | _ => EMPTY
+
+/-- "Convert castling moves": king-takes-own-rook becomes the king's two-square move, but only when a king of
+    the right colour stands on e1 / e8 -/
+def convTo (p : Pos) (from_ to : Sq) : Sq :=
+  let to := if from_ = E1 ∧ p.at from_ = WKING then (if to = H1 then G1 else if to = A1 then C1 else to) else to
+  if from_ = E8 ∧ p.at from_ = BKING then (if to = H8 then G8 else if to = A8 then C8 else to) else to
+
+/-- `PolyglotBook::getMove`: decode the 16-bit move (bit 15 is ignored) -/
 def getMove (p : Pos) (mv : Nat) : Mv :=
   let toFile := mv % 8
   let toRow := mv / 8 % 8
@@ -54,32 +68,25 @@ def getMove (p : Pos) (mv : Nat) : Mv :=
   let prom := mv / 4096 % 8
   let from_ := mkSquare fromFile fromRow
   let to := mkSquare toFile toRow
-  let promoteTo : Pc :=
-    match prom with
-    | 1 => if p.wtm then WKNIGHT else BKNIGHT
-    | 2 => if p.wtm then WBISHOP else BBISHOP
-    | 3 => if p.wtm then WROOK else BROOK
-    | 4 => if p.wtm then WQUEEN else BQUEEN
-    | _ => EMPTY
-  let to := if from_ = E1 ∧ p.at from_ = WKING then (if to = H1 then G1 else if to = A1 then C1 else to) else to
-  let to := if from_ = E8 ∧ p.at from_ = BKING then (if to = H8 then G8 else if to = A8 then C8 else to) else to
-  { f := from_, t := to, promo := promoteTo }
+  { f := from_, t := convTo p from_ to, promo := decodeProm p.wtm prom }
+
+/-- the `switch (move.promoteTo())` of `getPGMove` -/
+def encodeProm (pr : Pc) : Nat :=
+  if pr = WKNIGHT ∨ pr = BKNIGHT then 1
+  else if pr = WBISHOP ∨ pr = BBISHOP then 2
+  else if pr = WROOK ∨ pr = BROOK then 3
+  else if pr = WQUEEN ∨ pr = BQUEEN then 4
+  else 0
+
+/-- destination file written by `getPGMove`: the rook's file for the king's castling moves -/
+def encToX (p : Pos) (m : Mv) : Nat :=
+  let toX := m.t.x
+  let toX := if m.f = E1 ∧ p.at m.f = WKING then (if m.t = G1 then H1.x else if m.t = C1 then A1.x else toX) else toX
+  if m.f = E8 ∧ p.at m.f = BKING then (if m.t = G8 then H8.x else if m.t = C8 then A8.x else toX) else toX
 
 /-- `PolyglotBook::getPGMove` -/
 def getPGMove (p : Pos) (m : Mv) : Nat :=
-  let fromX := m.f.x
-  let fromY := m.f.y
-  let toX := m.t.x
-  let toY := m.t.y
-  let toX := if m.f = E1 ∧ p.at m.f = WKING then (if m.t = G1 then H1.x else if m.t = C1 then A1.x else toX) else toX
-  let toX := if m.f = E8 ∧ p.at m.f = BKING then (if m.t = G8 then H8.x else if m.t = C8 then A8.x else toX) else toX
-  let prom : Nat :=
-    if m.promo = WKNIGHT ∨ m.promo = BKNIGHT then 1
-    else if m.promo = WBISHOP ∨ m.promo = BBISHOP then 2
-    else if m.promo = WROOK ∨ m.promo = BROOK then 3
-    else if m.promo = WQUEEN ∨ m.promo = BQUEEN then 4
-    else 0
-  toX + toY * 8 + fromX * 64 + fromY * 512 + prom * 4096
+  encToX p m + m.t.y * 8 + m.f.x * 64 + m.f.y * 512 + encodeProm m.promo * 4096
 
 set_option maxRecDepth 100000 in
 theorem hashRandoms_size : hashRandoms.size = 781 := by decide +kernel
